@@ -5,7 +5,8 @@ next to real h5py on the same collections and the same foreign files.  Three thi
 per round-trip case:
   (b) property predicate: what `load_signatures(dump_signatures(x))` returns equals the harness's own
       description of x (parameters, ids, metadata, dtype, every int index, slices, index lists);
-  (a1) the file's raw content (attributes incl. Empty, datasets incl. dtype) equals the model store;
+  (a1) the file's raw content (attributes incl. Empty, datasets incl. dtype) equals the model store (compared by name: the ORDER
+       in which create issues the calls -- format marker last -- is observed call by call in harness/c19.py, tie (a1) there);
   (a2) the loaded object (values/bounds representation) equals the model's `load`.
 Foreign files: the implementation's answer must be SignaturesFileError (the model's `load_file`,
 i.e. the reader with repo_fixes/C12.diff); the unrepaired reader answers OSError on unparsable files
